@@ -3,7 +3,8 @@
  (C) Offsets.tla: source send / tool receive / ACK tick / connection drop / reconnect; TLC checks for
      every interleaving (<= 5-7 bytes, 3-4 ticks, 2 drops) AckExact, AckMonotone, NeverAhead,
      ReconnectExact, NoGapNoDup, and that the arithmetic as built before the fix (a deviation switch)
-     violates them.
+     violates them; OffsetsInd.tla (the sequences replaced by their last element) has an inductive invariant that Apalache
+    discharges for unbounded start offsets, stream lengths, ticks and drops.
  (B) complete end-to-end runs of the REAL DbSyncer.Sync() - checkpoint load, PSYNC handshake, full
      sync, incremental sync with resume, the once-per-second ACK goroutine and the reconnect loop -
      between a scripted source (bursts, idle periods spanning several ACK ticks, connection drops at and
@@ -52,6 +53,8 @@ def run(tier, seed, replay=None):
             mstates += r.distinct
             mtrans += r.generated
             cmds.append(r.cmd)
+        # unbounded: an inductive invariant of the counter abstraction, for every start offset, stream length, number of ticks and drops
+        cmds += vlib.apalache_inductive(sc, "OffsetsInd")
         r = vlib.tlc(sc, "Offsets", "Offsets_asbuilt.cfg", workers=4, timeout=600)
         if not r.violated:
             log("note: the pre-fix arithmetic (DevCumulativeAck) no longer violates the model's invariants?")
